@@ -1567,9 +1567,13 @@ func ruleC09_3(c *Ctx) {
 	}
 	wtype := ""
 	var wpos token.Pos
-	for _, b := range rc.Blocks {
-		for _, in := range b.Instrs {
-			if mu, ok := in.(*ssa.MapUpdate); ok {
+	for _, wf := range helperClosure(rc, 2) {
+		for _, b := range wf.Blocks {
+			for _, in := range b.Instrs {
+				mu, ok := in.(*ssa.MapUpdate)
+				if !ok {
+					continue
+				}
 				if k, ok := constString(mu.Key); ok && k == "return-value" {
 					if mi, ok := mu.Value.(*ssa.MakeInterface); ok {
 						wtype = typeStr(mi.X.Type())
@@ -1626,6 +1630,56 @@ func ruleC09_4(c *Ctx) {
 			prod = ra
 		}
 	}
+	// RunCommand behind an unexported helper that is handed the command and the directory, returns RunCommand's results
+	// as they are, and otherwise returns without error only for the empty command
+	var inner ssa.CallInstruction
+	var innerFrame *ssa.Function
+	cmdIdx, dirIdx := 0, 1
+	if rc == nil {
+		for _, via := range allCalls(f) {
+			h := via.Common().StaticCallee()
+			if h == nil || h.Blocks == nil || h.Pkg != f.Pkg || h.Parent() != nil || h.Object() == nil || h.Object().Exported() || !hasErrResult(via) {
+				continue
+			}
+			ic := firstCall(h, "in_toto.RunCommand")
+			if ic == nil || len(callsIn(h, "in_toto.RunCommand")) != 1 {
+				continue
+			}
+			p0, ok0 := resolve(ic.Common().Args[0], ic).(*ssa.Parameter)
+			p1, ok1 := resolve(ic.Common().Args[1], ic).(*ssa.Parameter)
+			if !ok0 || !ok1 || p0.Parent() != h || p1.Parent() != h {
+				continue
+			}
+			okShape := true
+			direct := false
+			for _, r := range returnsOf(h) {
+				if pc, idx := producer(r.Results[0], r); pc == ic && idx == 0 {
+					if pe, ie := producer(r.Results[len(r.Results)-1], r); pe == ic && ie == len(r.Results)-1 {
+						direct = true
+						continue
+					}
+				}
+				if !c.mayBeNilErr(r.Results[len(r.Results)-1], r.Block(), 0) {
+					continue
+				}
+				// a nil-error return without running anything: only for the empty command
+				emptyOnly := false
+				for _, ft := range c.factsAt(r.Block()) {
+					v0, okA := evalLenCond(ft.v, func(v ssa.Value) bool { return resolve(v, nil) == ssa.Value(p0) }, 0)
+					v1, okB := evalLenCond(ft.v, func(v ssa.Value) bool { return resolve(v, nil) == ssa.Value(p0) }, 1)
+					v2, okC := evalLenCond(ft.v, func(v ssa.Value) bool { return resolve(v, nil) == ssa.Value(p0) }, 2)
+					if okA && okB && okC && v0 == ft.val && v1 != ft.val && v2 != ft.val {
+						emptyOnly = true
+					}
+				}
+				okShape = okShape && emptyOnly
+			}
+			if okShape && direct {
+				rc, inner, innerFrame = via, ic, h
+				cmdIdx, dirIdx = paramIndex(p0), paramIndex(p1)
+			}
+		}
+	}
 	if rc == nil || mat == nil || prod == nil {
 		c.bad(R, fn, "snapshot calls", f.Pos(), "expected RecordArtifacts(materialPaths), RunCommand, RecordArtifacts(productPaths)")
 		return
@@ -1639,13 +1693,22 @@ func ruleC09_4(c *Ctx) {
 		}
 	}
 	c.check(okErr, R, fn, "command failure fails", rc.Pos(), "non-nil side is a failing continuation", "RunCommand's error is not fatal")
-	c.check(org(rc.Common().Args[0]) == "p4" && org(rc.Common().Args[1]) == "p1", R, fn, "command and run dir are the parameters", rc.Pos(), "RunCommand(cmdArgs, runDir)", "RunCommand("+org(rc.Common().Args[0])+", "+org(rc.Common().Args[1])+")")
+	c.check(org(rc.Common().Args[cmdIdx]) == "p4" && org(rc.Common().Args[dirIdx]) == "p1", R, fn, "command and run dir are the parameters", rc.Pos(), "RunCommand(cmdArgs, runDir)", "RunCommand("+org(rc.Common().Args[cmdIdx])+", "+org(rc.Common().Args[dirIdx])+")")
 	// every non-empty command is handed to RunCommand: the call is control-dependent only on the emptiness test of the
 	// command and on earlier stages having succeeded; any further condition silently skips commands (which RunCommand
 	// would run, or refuse with an error)
 	isCmd := func(v ssa.Value) bool { return org(v) == "p4" }
 	var extra []string
-	for _, ft := range c.factsAt(rc.Block()) {
+	facts := c.factsAt(rc.Block())
+	if inner != nil {
+		// the conditions inside the helper count as well (its command parameter is the command)
+		isOuter := isCmd
+		isCmd = func(v ssa.Value) bool {
+			return isOuter(v) || (innerFrame != nil && cmdIdx < len(innerFrame.Params) && resolve(v, nil) == ssa.Value(innerFrame.Params[cmdIdx]))
+		}
+		facts = append(append([]fact{}, facts...), c.factsAt(inner.Block())...)
+	}
+	for _, ft := range facts {
 		if v1, ok := evalLenCond(ft.v, isCmd, 1); ok {
 			if v1 != ft.val {
 				extra = append(extra, "a length condition that excludes one-element commands")
@@ -1804,43 +1867,7 @@ func (c *Ctx) optionWiring(e entry, ri *stageCall) {
 		}
 	}
 	isUseDSSE := func(v ssa.Value, at ssa.Instruction) bool {
-		// `_, useDSSE := layoutEnv.(*Envelope)`, possibly handed back by a transparent helper
-		if org(resolve(v, at)) == fmt.Sprintf("ok(p%d.(*in_toto.Envelope))", paramIndex(e.env)) {
-			return true
-		}
-		if ex, ok := resolve(v, at).(*ssa.Extract); ok && ex.Index == 1 {
-			if ta, ok := ex.Tuple.(*ssa.TypeAssert); ok && ta.CommaOk && ta.X == ssa.Value(e.env) && typeStr(ta.AssertedType) == "*in_toto.Envelope" {
-				return true
-			}
-		}
-		ph, ok := resolve(v, at).(*ssa.Phi)
-		if !ok {
-			return false
-		}
-		for i, ed := range ph.Edges {
-			cv, isC := ed.(*ssa.Const)
-			if !isC {
-				return false
-			}
-			pb := ph.Block().Preds[i]
-			// the true edge comes from a successful env.(*Envelope) assertion
-			if cv.Value.String() == "true" {
-				found := false
-				for _, b := range e.f.Blocks {
-					for _, in := range b.Instrs {
-						if ta, ok := in.(*ssa.TypeAssert); ok && ta.CommaOk && ta.X == ssa.Value(e.env) && typeStr(ta.AssertedType) == "*in_toto.Envelope" {
-							if okv := extractOf(ta, 1); okv != nil && (c.condAt(okv, true, pb) || edgeFact(pb, ph.Block(), okv, true)) {
-								found = true
-							}
-						}
-					}
-				}
-				if !found {
-					return false
-				}
-			}
-		}
-		return true
+		return c.useDSSEIn(e.f, e.env, v, at, 0)
 	}
 	isParam := func(v ssa.Value, at ssa.Instruction, prm *ssa.Parameter) bool {
 		return prm != nil && resolve(v, at) == ssa.Value(prm)
@@ -1861,6 +1888,23 @@ func (c *Ctx) optionWiring(e entry, ri *stageCall) {
 			for _, st := range callsIn(e.f, "os.Stat") {
 				if resolve(st.Common().Args[0], st) == ssa.Value(prm) {
 					okDir = true
+				}
+			}
+			// ... or by an unexported helper that is handed the parameter and whose error refuses
+			for _, via := range allCalls(e.f) {
+				h := via.Common().StaticCallee()
+				if okDir || h == nil || h.Blocks == nil || h.Pkg != e.f.Pkg || h.Parent() != nil || h.Object() == nil || h.Object().Exported() || !hasErrResult(via) {
+					continue
+				}
+				for j, a := range via.Common().Args {
+					if resolve(a, via) != ssa.Value(prm) || j >= len(h.Params) {
+						continue
+					}
+					for _, st := range callsIn(h, "os.Stat") {
+						if resolve(st.Common().Args[0], st) == ssa.Value(h.Params[j]) && c.helperGuarantees(h, st) {
+							okDir = true
+						}
+					}
 				}
 			}
 		}
@@ -2223,4 +2267,67 @@ func lookupHelper(g *ssa.Function) (mi, ki int, ok bool) {
 		mi, ki = m, k
 	}
 	return mi, ki, true
+}
+
+// useDSSEIn: v is `_, useDSSE := env.(*Envelope)` of the wrapper parameter env of frame f (directly, as a phi of constants
+// under that assertion, or handed back by an unexported helper that was given env and returns it so wherever its error is nil).
+func (c *Ctx) useDSSEIn(f *ssa.Function, env *ssa.Parameter, v ssa.Value, at ssa.Instruction, depth int) bool {
+	// `_, useDSSE := layoutEnv.(*Envelope)`, possibly handed back by a transparent helper
+	if org(resolve(v, at)) == fmt.Sprintf("ok(p%d.(*in_toto.Envelope))", paramIndex(env)) {
+		return true
+	}
+	if ex, ok := resolve(v, at).(*ssa.Extract); ok && ex.Index == 1 {
+		if ta, ok := ex.Tuple.(*ssa.TypeAssert); ok && ta.CommaOk && ta.X == ssa.Value(env) && typeStr(ta.AssertedType) == "*in_toto.Envelope" {
+			return true
+		}
+	}
+	if ex, ok := resolve(v, at).(*ssa.Extract); ok && depth < 2 {
+		if via, isCall := ex.Tuple.(*ssa.Call); isCall {
+			if h := via.Common().StaticCallee(); h != nil && h.Blocks != nil && h.Pkg == f.Pkg && h.Parent() == nil && h.Object() != nil && !h.Object().Exported() && errIndex(h) >= 0 {
+				for k, a := range via.Call.Args {
+					if resolve(a, via) != ssa.Value(env) || k >= len(h.Params) {
+						continue
+					}
+					rets := c.nilErrReturns(h)
+					all := len(rets) > 0
+					for _, r := range rets {
+						if ex.Index >= len(r.Results) || !c.useDSSEIn(h, h.Params[k], r.Results[ex.Index], r, depth+1) {
+							all = false
+						}
+					}
+					if all {
+						return true
+					}
+				}
+			}
+		}
+	}
+	ph, ok := resolve(v, at).(*ssa.Phi)
+	if !ok {
+		return false
+	}
+	for i, ed := range ph.Edges {
+		cv, isC := ed.(*ssa.Const)
+		if !isC {
+			return false
+		}
+		pb := ph.Block().Preds[i]
+		// the true edge comes from a successful env.(*Envelope) assertion
+		if cv.Value.String() == "true" {
+			found := false
+			for _, b := range f.Blocks {
+				for _, in := range b.Instrs {
+					if ta, ok := in.(*ssa.TypeAssert); ok && ta.CommaOk && ta.X == ssa.Value(env) && typeStr(ta.AssertedType) == "*in_toto.Envelope" {
+						if okv := extractOf(ta, 1); okv != nil && (c.condAt(okv, true, pb) || edgeFact(pb, ph.Block(), okv, true)) {
+							found = true
+						}
+					}
+				}
+			}
+			if !found {
+				return false
+			}
+		}
+	}
+	return true
 }
